@@ -144,6 +144,8 @@ class Library:
                                'without a value (operator* / operator->)"); return o.val; }' % (e, n, ct))
         f[n + '__op_arrow'] = ('static inline %s %s__op_arrow(%s o) { __CPROVER_assert(o.has, "UB: optional dereferenced '
                                'without a value (operator* / operator->)"); return o.val; }' % (e, n, ct))
+        f[n + '__ptr'] = ('static inline %s *%s__ptr(%s *o) { __CPROVER_assert(o->has, "UB: optional dereferenced '
+                          'without a value (operator* / operator->)"); return &o->val; }' % (e, n, ct))
         f[n + '__value'] = ('static inline %s %s__value(%s o) { if (!o.has) ghost_exc = EXC_bad_optional_access; '
                             'return o.val; }' % (e, n, ct))
         f[n + '__value_or__' + S(e)] = 'static inline %s %s__value_or__%s(%s o, %s d) { return o.has ? o.val : d; }' % (e, n, S(e), ct, e)
